@@ -144,6 +144,9 @@ def check_collection(chk, x, desc, tag):
             break
     if problems:
         sig = {"class": "records", "problem": problems[0][:24], "root_op": tag}
+        if kind != "block-shape" and any("differs between the records path" in p_ for p_ in problems) and fused_creation(x):
+            # the wrongly shaped block of finding C21-A consumed by a reduction: same shape, other value
+            sig = {"class": "records", "kind": "block-value-downstream-of-fused-creation", "fused_creation": True}
         if kind == "block-shape":
             # which layer produced the records of the wrong block: the native pure-Python FusedBlockwiseLayer?
             sig["kind"] = kind
@@ -742,7 +745,8 @@ def run(chk: Check):
     # blocks have the same size but an interior block does not
     import dask_array as _da
     for name, mk in [("neg(ones((6,), chunks=((1,3,1,1),)))", lambda: -_da.ones((6,), chunks=((1, 3, 1, 1),))),
-                     ("neg(ones((4,), chunks=((1,3),)))", lambda: -_da.ones((4,), chunks=((1, 3),)))]:
+                     ("neg(ones((4,), chunks=((1,3),)))", lambda: -_da.ones((4,), chunks=((1, 3),))),
+                     ("ones((6,1), chunks=((1,3,1,1),(1,))).sum()", lambda: _da.ones((6, 1), chunks=((1, 3, 1, 1), (1,))).sum())]:
         _materialize._LOWER_CACHE.clear()
         with warnings.catch_warnings():
             warnings.simplefilter("ignore")
@@ -823,7 +827,8 @@ def run(chk: Check):
                 problems = [f"shared walk raises {type(e).__name__}: {str(e)[:80]}"]
             if problems:
                 chk.violation("; ".join(problems[:3]), {"members": [progs.show(p) for _, p in colls]},
-                              signature={"class": "shared-seen", "problem": problems[0][:24]})
+                              signature={"class": "shared-seen", "problem": problems[0][:24] if not any(fused_creation(x) for x, _ in colls) else "block differs",
+                                         "fused_creation": any(fused_creation(x) for x, _ in colls)})
     model_correspondence(chk, layer_cases, walk_cases)
 
 
